@@ -256,6 +256,170 @@ theorem serve_ind (sc : Scenario) (env : Env) (P : Resp → Prop)
        · intro o g t e h; exact hbound _ o g t e h ‹_›
        · intro r; exact hsucc _ r ‹_›)
 
+/-! ### metadata → headers -/
+
+theorem mdGet_nil (k : Bytes) : mdGet [] k = [] := rfl
+
+theorem mdGet_cons (p : Bytes × List Bytes) (md : MD) (k : Bytes) :
+    mdGet (p :: md) k = if p.1 = k then p.2 else mdGet md k := by
+  unfold mdGet
+  by_cases h : p.1 = k
+  · simp [List.find?, h]
+  · have : (p.1 == k) = false := by simpa using h
+    simp [List.find?, this, h]
+
+theorem any_key_false_mdGet (md : MD) (k : Bytes) (h : md.any (fun p => p.1 == k) = false) : mdGet md k = [] := by
+  induction md with
+  | nil => rfl
+  | cons p rest ih =>
+    simp only [List.any_cons, Bool.or_eq_false_iff] at h
+    rw [mdGet_cons]
+    have : ¬ p.1 = k := by simpa using h.1
+    simp [this, ih h.2]
+
+theorem mdGet_append_single (md : MD) (k k' : Bytes) (vs : List Bytes) :
+    mdGet (md ++ [(k, vs)]) k' = if md.any (fun p => p.1 == k') then mdGet md k' else if k = k' then vs else [] := by
+  induction md with
+  | nil => simp [mdGet_cons, mdGet_nil]
+  | cons p rest ih =>
+    rw [List.cons_append, mdGet_cons, List.any_cons, mdGet_cons, ih]
+    by_cases h : p.1 = k'
+    · have hb : (p.1 == k') = true := by simpa using h
+      simp [h]
+    · have hb : (p.1 == k') = false := by simpa using h
+      rw [hb, Bool.false_or]; simp [h]
+
+theorem mdGet_map_replace (md : MD) (k k' : Bytes) (f : List Bytes → List Bytes) :
+    mdGet (md.map (fun p => if p.1 == k then (k, f p.2) else p)) k' =
+      if k = k' then (if md.any (fun p => p.1 == k) then f (mdGet md k) else []) else mdGet md k' := by
+  induction md with
+  | nil => simp [mdGet_nil]
+  | cons p rest ih =>
+    rw [List.map_cons, mdGet_cons, List.any_cons, mdGet_cons, mdGet_cons, ih]
+    by_cases hpk : p.1 = k
+    · have hb : (p.1 == k) = true := by simpa using hpk
+      rw [hb, Bool.true_or]
+      by_cases hk : k = k' <;> simp_all
+    · have hb : (p.1 == k) = false := by simpa using hpk
+      rw [hb, Bool.false_or]
+      by_cases hk : k = k'
+      · simp_all
+      · have hk' : ¬ k' = k := fun h => hk h.symm
+        simp_all
+
+theorem mdGet_mdSet (md : MD) (k k' : Bytes) (vs : List Bytes) :
+    mdGet (mdSet md k vs) k' = if k = k' then vs else mdGet md k' := by
+  unfold mdSet
+  by_cases ha : md.any (fun p => p.1 == k) = true
+  · simp only [ha, ↓reduceIte]
+    have := mdGet_map_replace md k k' (fun _ => vs)
+    simp only [ha, ↓reduceIte] at this
+    exact this
+  · have ha' : md.any (fun p => p.1 == k) = false := Bool.eq_false_iff.2 ha
+    simp only [ha', Bool.false_eq_true, ↓reduceIte, mdGet_append_single]
+    by_cases hk : k = k'
+    · subst hk; simp [ha']
+    · simp only [hk, ↓reduceIte]
+      split
+      · rfl
+      · rename_i h; exact (any_key_false_mdGet md k' (Bool.eq_false_iff.2 h)).symm
+
+theorem mdGet_mdAppend (md : MD) (k k' : Bytes) (vs : List Bytes) :
+    mdGet (mdAppend md k vs) k' = if k = k' then mdGet md k ++ vs else mdGet md k' := by
+  unfold mdAppend
+  by_cases ha : md.any (fun p => p.1 == k) = true
+  · simp only [ha, ↓reduceIte]
+    have := mdGet_map_replace md k k' (fun x => x ++ vs)
+    simp only [ha, ↓reduceIte] at this
+    exact this
+  · have ha' : md.any (fun p => p.1 == k) = false := Bool.eq_false_iff.2 ha
+    simp only [ha', Bool.false_eq_true, ↓reduceIte, mdGet_append_single]
+    by_cases hk : k = k'
+    · subst hk; simp [ha', any_key_false_mdGet md k ha']
+    · simp only [hk, ↓reduceIte]
+      split
+      · rfl
+      · rename_i h; exact (any_key_false_mdGet md k' (Bool.eq_false_iff.2 h)).symm
+
+theorem lower_append (a b : Bytes) : lower (a ++ b) = lower a ++ lower b := by simp [lower]
+
+/-- `filterResponse`: an allow-listed key with values ends up under `prefix+key` with exactly those values. -/
+theorem mdGet_filterResponse (allow : List Bytes) (pre : Bytes) (md : MD) (k : Bytes)
+    (hk : k ∈ allow) (hv : mdGet md (lower k) ≠ []) :
+    mdGet (filterResponse allow pre md) (lower (pre ++ k)) = mdGet md (lower k) := by
+  unfold filterResponse
+  have key : ∀ (l : List Bytes) (acc : MD), (k ∈ l ∨ mdGet acc (lower (pre ++ k)) = mdGet md (lower k)) →
+      mdGet (l.foldl (fun out k =>
+        let v := mdGet md (lower k)
+        if v.length > 0 then mdSet out (lower (pre ++ k)) v else out) acc) (lower (pre ++ k)) = mdGet md (lower k) := by
+    intro l
+    induction l with
+    | nil => intro acc h; rcases h with h | h; · cases h
+             · exact h
+    | cons a rest ih =>
+      intro acc h
+      simp only [List.foldl_cons]
+      apply ih
+      by_cases hr : k ∈ rest
+      · exact Or.inl hr
+      · right
+        rcases h with h | h
+        · have hka : k = a := by
+            rcases List.mem_cons.1 h with h | h
+            · exact h
+            · exact absurd h hr
+          subst hka
+          have hpos : (mdGet md (lower k)).length > 0 := List.length_pos_iff.2 hv
+          simp [hpos, mdGet_mdSet]
+        · by_cases hpos : (mdGet md (lower a)).length > 0
+          · simp only [hpos, ↓reduceIte, mdGet_mdSet]
+            by_cases hkey : lower (pre ++ a) = lower (pre ++ k)
+            · simp only [hkey, ↓reduceIte]
+              rw [lower_append, lower_append] at hkey
+              rw [List.append_cancel_left hkey]
+            · simp [hkey, h]
+          · simp [hpos, h]
+  exact key allow [] (Or.inl hk)
+
+/-- `appendHeaders` only ever adds values, under the canonical form of the key. -/
+theorem mem_appendHeaders (md : MD) (h0 : MD) (K : Bytes) (v : Bytes)
+    (h : v ∈ mdGet md K ∨ v ∈ mdGet h0 (canonicalHeaderKey K)) :
+    v ∈ mdGet (appendHeaders h0 md) (canonicalHeaderKey K) := by
+  unfold appendHeaders
+  induction md generalizing h0 with
+  | nil =>
+    rcases h with h | h
+    · simp [mdGet_nil] at h
+    · exact h
+  | cons p rest ih =>
+    simp only [List.foldl_cons]
+    apply ih
+    rw [mdGet_cons] at h
+    rw [mdGet_mdAppend]
+    by_cases hp : p.1 = K
+    · subst hp
+      simp only [↓reduceIte] at h ⊢
+      rcases h with h | h
+      · right; exact List.mem_append_right _ h
+      · right; exact List.mem_append_left _ h
+    · simp only [hp, ↓reduceIte] at h
+      rcases h with h | h
+      · exact Or.inl h
+      · right
+        split
+        · rename_i hc; rw [hc]; exact List.mem_append_left _ h
+        · exact h
+
+/-- An allow-listed key's values appear under the canonical form of `prefix+key`, whatever was there before. -/
+theorem mem_headers_of_allowed (allow : List Bytes) (pre : Bytes) (md h0 : MD) (k v : Bytes)
+    (hk : k ∈ allow) (hv : v ∈ mdGet md (lower k)) :
+    v ∈ mdGet (appendHeaders h0 (filterResponse allow pre md)) (canonicalHeaderKey (lower (pre ++ k))) := by
+  have hne : mdGet md (lower k) ≠ [] := by intro h; rw [h] at hv; cases hv
+  apply mem_appendHeaders
+  left
+  rw [mdGet_filterResponse allow pre md k hk hne]
+  exact hv
+
 /-! ### concrete scenarios for the non-vacuity examples -/
 
 def exScenario (inj : Inj) (e : RawErr) (n : Nat) : Scenario :=
